@@ -28,12 +28,17 @@ func judgeWrites(c *vs.Case, e *Env, t *SyncTrace, parent map[string]any, epoch 
 	}
 	// objects this sync itself made the parent's (adoption edits, creations) before touching them again
 	ownedDuringSync := map[string]bool{}
+	// ... and objects this sync itself released: they are nobody's business any more
+	releasedBySync := map[string]string{}
 	for _, r := range t.Reqs {
 		if r.Epoch != epoch || !r.Mutating() || !r.Accepted() || r.Actor != "controller" {
 			continue
 		}
 		if r.Post != nil && r.Verb != "delete" && controlled(r.Post) {
 			ownedDuringSync[r.Def.Resource+"|"+ObjID(r.Post)] = true
+		}
+		if r.Pre != nil && r.Post != nil && r.Verb != "delete" && controlled(r.Pre) && !controlled(r.Post) {
+			releasedBySync[r.Def.Resource+"|"+ObjID(r.Post)] = r.String()
 		}
 		res := r.Def.Resource
 		if res == cfg.ParentResource {
@@ -51,6 +56,9 @@ func judgeWrites(c *vs.Case, e *Env, t *SyncTrace, parent map[string]any, epoch 
 			cached := FindIn(t.PreCache[res], r.Pre)
 			if cached == nil || metaStr(cached, "uid") != puid {
 				return vs.Violf("C02/delete-uid-not-observed", "%s: UID precondition %s is not the UID of the object observed in the cache (%v)", desc, puid, cached != nil)
+			}
+			if rel, ok := releasedBySync[res+"|"+ObjID(r.Pre)]; ok && !controlled(r.Pre) {
+				return vs.Violf("C02/delete-after-own-release", "%s deleted an object that this very sync had released before (%s)", desc, rel)
 			}
 			if !controlled(r.Pre) && !controlled(cached) && !ownedDuringSync[res+"|"+ObjID(r.Pre)] {
 				// not even the observed object was the parent's: nothing was "transferred" here
@@ -91,6 +99,9 @@ func judgeWrites(c *vs.Case, e *Env, t *SyncTrace, parent map[string]any, epoch 
 					return vs.Violf("C02/write-to-unmarked-attachment", "%s wrote an attachment that lacks this decorator's marker", desc)
 				}
 				continue
+			}
+			if rel, ok := releasedBySync[res+"|"+ObjID(r.Pre)]; ok && !(cfg.SSA && r.Verb == "patch") {
+				return vs.Violf("C02/write-after-own-release", "%s wrote an object that this very sync had released before (%s)", desc, rel)
 			}
 			// the only other legal write: the adoption edit of a matching orphan
 			if cfg.Kind == "composite" && ControllerRefs(r.Pre) == 0 && isAdoptionEdit(r.Pre, r.Post, uid) {
